@@ -70,6 +70,11 @@ def faults_for(rng, m, directed, limit):
             big = [(fresh[i], fresh[i + 1]) for i in range(10)] + [(u, v)] + \
                   [(fresh[i], fresh[i + 1]) for i in range(11, 21)]
             out.append(("addfrom", big, t, None if t % 2 else t + 2))
+            if rng.random() < 0.15:
+                fresh = ["H%d" % i for i in range(140)]
+                huge = [(fresh[i], fresh[i + 1]) for i in range(60)] + [(u, v)] + \
+                       [(fresh[i], fresh[i + 1]) for i in range(61, 135)]
+                out.append(("addfrom", huge, t, None))
             out.append(("dn.cycle", [o1, o2, v, u] if not directed else [o1, o2, u, v], t, None))
     out.append(("add", "g1", "g2", None, None))
     out.append(("add", nodes[0] if nodes else "g1", "g2", None, 5))
@@ -118,6 +123,11 @@ def continuation(rng, m, n):
 def judge(ctx, dn, prog, m, directed, removal, fault):
     rng = ctx.rng
     T = rebuild(dn, prog, directed, removal)
+    # a reader that started on the stream before the call and finishes afterwards must see the whole
+    # original log if the call is rejected (no trace, also for a suspended reader)
+    full_before = list(T.stream_interactions())
+    reader = T.stream_interactions()
+    head = next(reader, None)
     got, ex = driver.outcome(dn, T, fault)
     els = gen.elements(fault)
     kind = fault[0]
@@ -157,6 +167,12 @@ def judge(ctx, dn, prog, m, directed, removal, fault):
         ctx.cell("fault:dn.star")
     ctx.cell("mode:" + ("removal" if removal else "accumulative"))
     ctx.cell("class:" + ("DynDiGraph" if directed else "DynGraph"))
+    if n_before == 0:
+        try:
+            resumed = ([head] if head is not None else []) + list(reader)
+            ctx.expect("rejected:suspended-stream-reader", resumed, full_before, dict(fault=fault))
+        except Exception as ex2:
+            ctx.violation("rejected:suspended-stream-reader", dict(fault=fault, exception=repr(ex2)))
     pre = preceding(fault)[:n_before] if kind != "add" else []
     R = rebuild(dn, list(prog) + pre, directed, removal)
     sT, sR = observe.snapshot(T), observe.snapshot(R)
